@@ -121,6 +121,8 @@ pub fn run(parts: &[String]) -> String {
             "fenc" => { let e = pop_e(&mut st); return h(&e.vartime_compress_to_field().to_bytes_le()) }
             "eq" => { let b = pop_e(&mut st); let a = pop_e(&mut st); return format!("{}", a == b) }
             "isid" => { let a = pop_e(&mut st); return format!("{}", a.is_identity()) }
+            "valid" => { let v = st.pop().expect("stack"); return format!("{}", crate::cmds::is_valid(&v)) }
+            "allvalid" => { let mut ok = true; let n = st.len(); while let Some(v) = st.pop() { ok &= crate::cmds::is_valid(&v); } return format!("{} {}", ok, n) }
             #[cfg(feature = "ark")]
             "iszero" => { let a = pop_e(&mut st); return format!("{}", a.is_zero()) }
             #[cfg(feature = "ark")]
@@ -172,6 +174,27 @@ pub fn run(parts: &[String]) -> String {
 pub fn sqrt_ratio(n: &Fq, d: &Fq) -> (bool, Fq) { Fq::sqrt_ratio_zeta(n, d) }
 #[cfg(feature = "min")]
 pub fn sqrt_ratio(n: &Fq, d: &Fq) -> (bool, Fq) { Fq::non_arkworks_sqrt_ratio_zeta(n, d) }
+
+#[cfg(feature = "ark")]
+pub fn is_valid(v: &V) -> bool {
+    let (e, on_curve): (Element, bool) = match v {
+        V::E(e) => { let a: Aff = (*e).into(); (*e, on_curve_xy(&a)) }
+        V::A(a) => ((*a).into(), on_curve_xy(a)),
+        _ => panic!("expected a point"),
+    };
+    let back = e.vartime_compress().vartime_decompress();
+    on_curve && back.map(|x| x == e).unwrap_or(false) && Group::mul_bigint(&e, Fr::MODULUS.0).is_identity()
+}
+#[cfg(feature = "ark")]
+fn on_curve_xy(a: &Aff) -> bool {
+    match a.xy() { None => true, Some((x, y)) => { let d = Fq::from(3021u64); let xx = *x * *x; let yy = *y * *y; yy - xx == Fq::ONE + d * xx * yy } }
+}
+#[cfg(feature = "min")]
+pub fn is_valid(v: &V) -> bool {
+    let e = match v { V::E(e) => *e, _ => panic!("expected a point") };
+    let back = e.vartime_compress().vartime_decompress();
+    back.map(|x| x == e).unwrap_or(false) && e.scalar_mul_vartime(&Fr::MODULUS_LIMBS).is_identity()
+}
 
 fn res_el(r: Result<Element, impl std::fmt::Debug>) -> String {
     match r { Ok(e) => format!("ok {}", h(&e.vartime_compress().0)), Err(e) => format!("err {:?}", e) }
@@ -242,6 +265,11 @@ pub fn named(name: &str, st: &mut Vec<V>) {
             ps.reverse(); ks.reverse();
             let bases = Element::batch_convert_to_mul_base(&ps);
             st.push(V::E(<Element as VariableBaseMSM>::msm(&bases, &ks).unwrap())) }
+        #[cfg(feature = "ark")]
+        "convert_batch" => { let n = st.len(); let v: Vec<Element> = (0..n).map(|_| pop_e(st)).collect(); let v: Vec<Element> = v.into_iter().rev().collect();
+            for a in Element::batch_convert_to_mul_base(&v) { st.push(V::A(a)) } }
+        #[cfg(feature = "ark")]
+        "sample" => { use ark_std::UniformRand; let mut rng = ark_std::test_rng(); for _ in 0..8 { st.push(V::E(Element::rand(&mut rng))); st.push(V::A(Aff::rand(&mut rng))); } }
         #[cfg(feature = "ark")]
         "normalize_batch" => { let n = st.len(); let v: Vec<Element> = (0..n).map(|_| pop_e(st)).collect(); let v: Vec<Element> = v.into_iter().rev().collect();
             for a in Element::normalize_batch(&v) { st.push(V::A(a)) } }
